@@ -287,6 +287,7 @@ def Post (p : Prog) (B ra : Nat) (Γ : Gam) (env' : Env) (F D o pcEnd : Nat) (m0
   | .returned => st.pc = ra ∧ Keep p.w m0 st.mem F
   | .retv v => st.pc = ra ∧ Keep p.w m0 st.mem F ∧ st.mem.readLE (F - p.w) p.w = v
   | .div0 => st.pc = B + off_division_by_zero
+  | .ovf => st.pc = B + off_stack_overflow
   | .defeat => False
 
 /-- the same facts relative to an earlier memory -/
@@ -297,6 +298,7 @@ theorem Post.rebase {B ra : Nat} {Γ : Gam} {env' : Env} {F D o e : Nat} {m m1 :
   | returned => exact ⟨h.1, k.trans' h.2⟩
   | retv v => exact ⟨h.1, k.trans' h.2.1, h.2.2⟩
   | div0 => exact h
+  | ovf => exact h
   | defeat => exact h
 
 theorem look_cons_same (Γ : Gam) (x : String) (a : Nat) : look ((x, a) :: Γ) x = a := by
@@ -463,6 +465,27 @@ theorem plain_youLevel (s : S) : plain s = true → youLevel s = true := by
   | callS g args k ih => simpa [plain, youLevel] using ih
   | declCall x g args k ih => simpa [plain, youLevel] using ih
   | assignCall x g args k ih => simpa [plain, youLevel] using ih
+
+/-- the only faults a call can end the run with -/
+theorem callWith_fault {M n : Nat} {fns : List FDecl} {w : Nat} {ex : (room o : Nat) → Env → S → Option (Env × List Ev × Res)}
+    {room o : Nat} {env : Env} {g : String} {args : List E} {trc : List Ev} {r : Res} {rv : Option Nat}
+    (h : callWith M n fns w ex room o env g args = some (trc, some r, rv)) : r = .div0 ∨ r = .ovf := by
+  unfold callWith at h
+  cases hev : evalArgs M n env args with
+  | none => simp only [hev, Option.some.injEq, Prod.mk.injEq] at h; exact Or.inl h.2.1.symm
+  | some vs =>
+    simp only [hev] at h
+    cases hfind : fns.find? (fun fd => fd.name == g) with
+    | none => simp [hfind] at h
+    | some fd =>
+      simp only [hfind] at h
+      split at h
+      · simp at h
+      · split at h
+        · simp only [Option.some.injEq, Prod.mk.injEq] at h; exact Or.inr h.2.1.symm
+        · split at h <;> simp only [Option.some.injEq, Prod.mk.injEq, reduceCtorEq, and_false, false_and] at h
+          · exact Or.inl h.2.1.symm
+          · exact Or.inr h.2.1.symm
 
 /-- at the level of the you function a defeat never escapes: every defeat call sits in a `try` -/
 theorem exec_no_defeat (M n : Nat) (fns : List FDecl) (w : Nat) : ∀ (fuel : Nat) (s : S) (room o : Nat) (env env' : Env) (tr : List Ev) (res : Res),
@@ -671,8 +694,10 @@ theorem exec_no_defeat (M n : Nat) (fns : List FDecl) (w : Nat) : ∀ (fuel : Na
       | some rc =>
         obtain ⟨trc, flag, rv⟩ := rc
         cases flag with
-        | true => simp only [hc, Option.some.injEq, Prod.mk.injEq] at hex; rw [← hex.2.2]; decide
-        | false =>
+        | some rf =>
+          simp only [hc, Option.some.injEq, Prod.mk.injEq] at hex; rw [← hex.2.2]
+          rcases callWith_fault hc with h | h <;> rw [h] <;> decide
+        | none =>
           simp only [hc] at hex
           cases hk : exec M n fns w f room o env k with
           | none => simp [hk] at hex
@@ -688,8 +713,10 @@ theorem exec_no_defeat (M n : Nat) (fns : List FDecl) (w : Nat) : ∀ (fuel : Na
       | some rc =>
         obtain ⟨trc, flag, rv⟩ := rc
         cases flag with
-        | true => simp only [hc, Option.some.injEq, Prod.mk.injEq] at hex; rw [← hex.2.2]; decide
-        | false =>
+        | some rf =>
+          simp only [hc, Option.some.injEq, Prod.mk.injEq] at hex; rw [← hex.2.2]
+          rcases callWith_fault hc with h | h <;> rw [h] <;> decide
+        | none =>
           cases rv with
           | none => simp [hc] at hex
           | some v =>
@@ -708,8 +735,10 @@ theorem exec_no_defeat (M n : Nat) (fns : List FDecl) (w : Nat) : ∀ (fuel : Na
       | some rc =>
         obtain ⟨trc, flag, rv⟩ := rc
         cases flag with
-        | true => simp only [hc, Option.some.injEq, Prod.mk.injEq] at hex; rw [← hex.2.2]; decide
-        | false =>
+        | some rf =>
+          simp only [hc, Option.some.injEq, Prod.mk.injEq] at hex; rw [← hex.2.2]
+          rcases callWith_fault hc with h | h <;> rw [h] <;> decide
+        | none =>
           cases rv with
           | none => simp [hc] at hex
           | some v =>
@@ -942,8 +971,10 @@ theorem exec_noFall (M n : Nat) (fns : List FDecl) (w : Nat) : ∀ (fuel : Nat) 
       | some rc =>
         obtain ⟨trc, flag, rv⟩ := rc
         cases flag with
-        | true => simp only [hc, Option.some.injEq, Prod.mk.injEq] at hex; rw [← hex.2.2]; decide
-        | false =>
+        | some rf =>
+          simp only [hc, Option.some.injEq, Prod.mk.injEq] at hex; rw [← hex.2.2]
+          rcases callWith_fault hc with h | h <;> rw [h] <;> decide
+        | none =>
           simp only [hc] at hex
           cases hk : exec M n fns w f room o env k with
           | none => simp [hk] at hex
@@ -959,8 +990,10 @@ theorem exec_noFall (M n : Nat) (fns : List FDecl) (w : Nat) : ∀ (fuel : Nat) 
       | some rc =>
         obtain ⟨trc, flag, rv⟩ := rc
         cases flag with
-        | true => simp only [hc, Option.some.injEq, Prod.mk.injEq] at hex; rw [← hex.2.2]; decide
-        | false =>
+        | some rf =>
+          simp only [hc, Option.some.injEq, Prod.mk.injEq] at hex; rw [← hex.2.2]
+          rcases callWith_fault hc with h | h <;> rw [h] <;> decide
+        | none =>
           cases rv with
           | none => simp [hc] at hex
           | some v =>
@@ -979,8 +1012,10 @@ theorem exec_noFall (M n : Nat) (fns : List FDecl) (w : Nat) : ∀ (fuel : Nat) 
       | some rc =>
         obtain ⟨trc, flag, rv⟩ := rc
         cases flag with
-        | true => simp only [hc, Option.some.injEq, Prod.mk.injEq] at hex; rw [← hex.2.2]; decide
-        | false =>
+        | some rf =>
+          simp only [hc, Option.some.injEq, Prod.mk.injEq] at hex; rw [← hex.2.2]
+          rcases callWith_fault hc with h | h <;> rw [h] <;> decide
+        | none =>
           cases rv with
           | none => simp [hc] at hex
           | some v =>
@@ -993,19 +1028,20 @@ theorem exec_noFall (M n : Nat) (fns : List FDecl) (w : Nat) : ∀ (fuel : Nat) 
               rw [← hex.2.2]; exact ih k _ _ _ _ _ _ hy hk
 
 /-- the source semantics only ever uses `room` to decide whether a callee's frame fits: more room
-never changes a conclusive result -/
-theorem exec_room_mono (M n : Nat) (fns : List FDecl) (w : Nat) : ∀ (fuel : Nat) (s : S) (room room' o : Nat) (env : Env)
-    (r : Env × List Ev × Res), room ≤ room' →
-    exec M n fns w fuel room o env s = some r → exec M n fns w fuel room' o env s = some r := by
+never changes a conclusive result that is not a stack overflow -/
+theorem exec_room_mono (M n : Nat) (fns : List FDecl) (w : Nat) : ∀ (fuel : Nat) (s : S) (room room' o : Nat) (env env' : Env)
+    (tr : List Ev) (res : Res), room ≤ room' →
+    exec M n fns w fuel room o env s = some (env', tr, res) → res ≠ .ovf →
+    exec M n fns w fuel room' o env s = some (env', tr, res) := by
   intro fuel
   induction fuel with
-  | zero => intro s room room' o env r _ h; simp [exec] at h
+  | zero => intro s room room' o env env' tr res _ h; simp [exec] at h
   | succ f ih =>
-    intro s room room' o env r hle hex
-    have hcw : ∀ (o : Nat) (env : Env) (g : String) (args : List E) (rc : List Ev × Bool × Option Nat),
-        callWith M n fns w (exec M n fns w f) room o env g args = some rc →
-        callWith M n fns w (exec M n fns w f) room' o env g args = some rc := by
-      intro o env g args rc h
+    intro s room room' o env env' tr res hle hex hno
+    have hcw : ∀ (o : Nat) (env : Env) (g : String) (args : List E) (trc : List Ev) (fl : Option Res) (rv : Option Nat),
+        callWith M n fns w (exec M n fns w f) room o env g args = some (trc, fl, rv) → fl ≠ some .ovf →
+        callWith M n fns w (exec M n fns w f) room' o env g args = some (trc, fl, rv) := by
+      intro o env g args trc fl rv h hfl
       unfold callWith at h ⊢
       cases hev : evalArgs M n env args with
       | none => simpa [hev] using h
@@ -1015,17 +1051,29 @@ theorem exec_room_mono (M n : Nat) (fns : List FDecl) (w : Nat) : ∀ (fuel : Na
         | none => simp [hfind] at h
         | some fd =>
           simp only [hfind] at h ⊢
-          by_cases hc : vs.length ≠ fd.params.length ∨ room < o ∨ room - o < pkS w (entryOff w fd.params) fd.body
+          by_cases hc : vs.length ≠ fd.params.length ∨ room < o
           · simp [hc] at h
           · rw [if_neg hc] at h
-            have hc' : ¬ (vs.length ≠ fd.params.length ∨ room' < o ∨ room' - o < pkS w (entryOff w fd.params) fd.body) := by omega
+            have hc' : ¬ (vs.length ≠ fd.params.length ∨ room' < o) := by omega
             rw [if_neg hc']
-            cases hb : exec M n fns w f (room - o) (entryOff w fd.params) (bindEnv fd.params vs) fd.body with
-            | none => simp [hb] at h
-            | some rb =>
-              rw [ih _ _ _ _ _ _ (by omega) hb]
-              rw [hb] at h
-              exact h
+            by_cases hp : room - o < pkS w (entryOff w fd.params) fd.body
+            · rw [if_pos hp] at h
+              simp only [Option.some.injEq, Prod.mk.injEq] at h
+              exact absurd h.2.1.symm hfl
+            · rw [if_neg hp] at h
+              have hp' : ¬ (room' - o < pkS w (entryOff w fd.params) fd.body) := by omega
+              rw [if_neg hp']
+              cases hb : exec M n fns w f (room - o) (entryOff w fd.params) (bindEnv fd.params vs) fd.body with
+              | none => simp [hb] at h
+              | some rb =>
+                obtain ⟨eb, tb, rb⟩ := rb
+                rw [hb] at h
+                have hrb : rb ≠ .ovf := by
+                  intro e; subst e
+                  simp only [Option.some.injEq, Prod.mk.injEq] at h
+                  exact hfl h.2.1.symm
+                rw [ih _ _ _ _ _ _ _ _ (by omega) hb hrb]
+                exact h
     cases s with
     | nil => simpa [exec] using hex
     | ret => simpa [exec] using hex
@@ -1035,12 +1083,12 @@ theorem exec_room_mono (M n : Nat) (fns : List FDecl) (w : Nat) : ∀ (fuel : Na
       simp only [exec] at hex ⊢
       cases hev : evalE M n env e with
       | none => simpa [hev] using hex
-      | some v => simp only [hev] at hex ⊢; exact ih _ _ _ _ _ _ hle hex
+      | some v => simp only [hev] at hex ⊢; exact ih _ _ _ _ _ _ _ _ hle hex hno
     | assign x e k =>
       simp only [exec] at hex ⊢
       cases hev : evalE M n env e with
       | none => simpa [hev] using hex
-      | some v => simp only [hev] at hex ⊢; exact ih _ _ _ _ _ _ hle hex
+      | some v => simp only [hev] at hex ⊢; exact ih _ _ _ _ _ _ _ _ hle hex hno
     | write e k =>
       simp only [exec] at hex ⊢
       cases hev : evalE M n env e with
@@ -1049,14 +1097,22 @@ theorem exec_room_mono (M n : Nat) (fns : List FDecl) (w : Nat) : ∀ (fuel : Na
         simp only [hev] at hex ⊢
         cases hk : exec M n fns w f room o env k with
         | none => simp [hk] at hex
-        | some rk => rw [ih _ _ _ _ _ _ hle hk]; rw [hk] at hex; exact hex
+        | some rk =>
+          obtain ⟨e1, t1, r1⟩ := rk
+          simp only [hk, Option.bind_eq_bind, Option.bind_some, Option.pure_def, Option.some.injEq, Prod.mk.injEq] at hex
+          obtain ⟨rfl, rfl, rfl⟩ := hex
+          rw [ih _ _ _ _ _ _ _ _ hle hk hno]; rfl
     | writeln e k =>
       cases e with
       | none =>
         simp only [exec] at hex ⊢
         cases hk : exec M n fns w f room o env k with
         | none => simp [hk] at hex
-        | some rk => rw [ih _ _ _ _ _ _ hle hk]; rw [hk] at hex; exact hex
+        | some rk =>
+          obtain ⟨e1, t1, r1⟩ := rk
+          simp only [hk, Option.bind_eq_bind, Option.bind_some, Option.pure_def, Option.some.injEq, Prod.mk.injEq] at hex
+          obtain ⟨rfl, rfl, rfl⟩ := hex
+          rw [ih _ _ _ _ _ _ _ _ hle hk hno]; rfl
       | some e =>
         simp only [exec] at hex ⊢
         cases hev : evalE M n env e with
@@ -1065,27 +1121,42 @@ theorem exec_room_mono (M n : Nat) (fns : List FDecl) (w : Nat) : ∀ (fuel : Na
           simp only [hev] at hex ⊢
           cases hk : exec M n fns w f room o env k with
           | none => simp [hk] at hex
-          | some rk => rw [ih _ _ _ _ _ _ hle hk]; rw [hk] at hex; exact hex
+          | some rk =>
+            obtain ⟨e1, t1, r1⟩ := rk
+            simp only [hk, Option.bind_eq_bind, Option.bind_some, Option.pure_def, Option.some.injEq, Prod.mk.injEq] at hex
+            obtain ⟨rfl, rfl, rfl⟩ := hex
+            rw [ih _ _ _ _ _ _ _ _ hle hk hno]; rfl
     | putc c k =>
       simp only [exec] at hex ⊢
       cases hk : exec M n fns w f room o env k with
       | none => simp [hk] at hex
-      | some rk => rw [ih _ _ _ _ _ _ hle hk]; rw [hk] at hex; exact hex
+      | some rk =>
+        obtain ⟨e1, t1, r1⟩ := rk
+        simp only [hk, Option.bind_eq_bind, Option.bind_some, Option.pure_def, Option.some.injEq, Prod.mk.injEq] at hex
+        obtain ⟨rfl, rfl, rfl⟩ := hex
+        rw [ih _ _ _ _ _ _ _ _ hle hk hno]; rfl
     | block b k =>
       simp only [exec] at hex ⊢
       cases hb : exec M n fns w f room o env b with
       | none => simp [hb] at hex
       | some rb =>
         obtain ⟨e1, t1, r1⟩ := rb
-        rw [ih _ _ _ _ _ _ hle hb]
-        simp only [hb, Option.bind_eq_bind, Option.bind_some] at hex ⊢
+        simp only [hb, Option.bind_eq_bind, Option.bind_some] at hex
         by_cases hn : r1 = .norm
         · subst hn
-          simp only [if_true] at hex ⊢
+          rw [ih _ _ _ _ _ _ _ _ hle hb (by decide)]
+          simp only [if_true, Option.bind_eq_bind, Option.bind_some] at hex ⊢
           cases hk : exec M n fns w f room o e1 k with
           | none => simp [hk] at hex
-          | some rk => rw [ih _ _ _ _ _ _ hle hk]; rw [hk] at hex; exact hex
-        · simpa [hn] using hex
+          | some rk =>
+            obtain ⟨e2, t2, r2⟩ := rk
+            simp only [hk, Option.bind_some, Option.pure_def, Option.some.injEq, Prod.mk.injEq] at hex
+            obtain ⟨rfl, rfl, rfl⟩ := hex
+            rw [ih _ _ _ _ _ _ _ _ hle hk hno]; rfl
+        · simp only [hn, if_false, Option.pure_def, Option.some.injEq, Prod.mk.injEq] at hex
+          obtain ⟨rfl, rfl, rfl⟩ := hex
+          rw [ih _ _ _ _ _ _ _ _ hle hb hno]
+          simp [hn]
     | ifb c t e k =>
       simp only [exec] at hex ⊢
       cases hev : evalB M n env c with
@@ -1096,47 +1167,64 @@ theorem exec_room_mono (M n : Nat) (fns : List FDecl) (w : Nat) : ∀ (fuel : Na
         | none => simp [hb] at hex
         | some rb =>
           obtain ⟨e1, t1, r1⟩ := rb
-          rw [ih _ _ _ _ _ _ hle hb]
-          simp only [hb, Option.bind_eq_bind, Option.bind_some] at hex ⊢
+          simp only [hb, Option.bind_eq_bind, Option.bind_some] at hex
           by_cases hn : r1 = .norm
           · subst hn
-            simp only [if_true] at hex ⊢
+            rw [ih _ _ _ _ _ _ _ _ hle hb (by decide)]
+            simp only [if_true, Option.bind_eq_bind, Option.bind_some] at hex ⊢
             cases hk : exec M n fns w f room o e1 k with
             | none => simp [hk] at hex
-            | some rk => rw [ih _ _ _ _ _ _ hle hk]; rw [hk] at hex; exact hex
-          · simpa [hn] using hex
+            | some rk =>
+              obtain ⟨e2, t2, r2⟩ := rk
+              simp only [hk, Option.bind_some, Option.pure_def, Option.some.injEq, Prod.mk.injEq] at hex
+              obtain ⟨rfl, rfl, rfl⟩ := hex
+              rw [ih _ _ _ _ _ _ _ _ hle hk hno]; rfl
+          · simp only [hn, if_false, Option.pure_def, Option.some.injEq, Prod.mk.injEq] at hex
+            obtain ⟨rfl, rfl, rfl⟩ := hex
+            rw [ih _ _ _ _ _ _ _ _ hle hb hno]
+            simp [hn]
     | loop c body cont k =>
       simp only [exec] at hex ⊢
       cases hev : evalB M n env c with
       | none => simpa [hev] using hex
       | some cv =>
         cases cv with
-        | false => simp only [hev] at hex ⊢; exact ih _ _ _ _ _ _ hle hex
+        | false => simp only [hev] at hex ⊢; exact ih _ _ _ _ _ _ _ _ hle hex hno
         | true =>
           simp only [hev] at hex ⊢
           cases hb : exec M n fns w f room o env body with
           | none => simp [hb] at hex
           | some rb =>
             obtain ⟨e1, t1, r1⟩ := rb
-            rw [ih _ _ _ _ _ _ hle hb]
-            simp only [hb, Option.bind_eq_bind, Option.bind_some] at hex ⊢
+            simp only [hb, Option.bind_eq_bind, Option.bind_some] at hex
             by_cases hn : r1 = .norm
             · subst hn
-              simp only [if_true] at hex ⊢
+              rw [ih _ _ _ _ _ _ _ _ hle hb (by decide)]
+              simp only [if_true, Option.bind_eq_bind, Option.bind_some] at hex ⊢
               cases hc : exec M n fns w f room o e1 cont with
               | none => simp [hc] at hex
               | some rc =>
                 obtain ⟨e2, t2, r2⟩ := rc
-                rw [ih _ _ _ _ _ _ hle hc]
-                simp only [hc, Option.bind_some] at hex ⊢
+                simp only [hc, Option.bind_some] at hex
                 by_cases hn2 : r2 = .norm
                 · subst hn2
-                  simp only [if_true] at hex ⊢
+                  rw [ih _ _ _ _ _ _ _ _ hle hc (by decide)]
+                  simp only [if_true, Option.bind_some] at hex ⊢
                   cases hl : exec M n fns w f room o e2 (.loop c body cont k) with
                   | none => simp [hl] at hex
-                  | some rl => rw [ih _ _ _ _ _ _ hle hl]; rw [hl] at hex; exact hex
-                · simpa [hn2] using hex
-            · simpa [hn] using hex
+                  | some rl =>
+                    obtain ⟨e3, t3, r3⟩ := rl
+                    simp only [hl, Option.bind_some, Option.pure_def, Option.some.injEq, Prod.mk.injEq] at hex
+                    obtain ⟨rfl, rfl, rfl⟩ := hex
+                    rw [ih _ _ _ _ _ _ _ _ hle hl hno]; rfl
+                · simp only [hn2, if_false, Option.pure_def, Option.some.injEq, Prod.mk.injEq] at hex
+                  obtain ⟨rfl, rfl, rfl⟩ := hex
+                  rw [ih _ _ _ _ _ _ _ _ hle hc hno]
+                  simp [hn2]
+            · simp only [hn, if_false, Option.pure_def, Option.some.injEq, Prod.mk.injEq] at hex
+              obtain ⟨rfl, rfl, rfl⟩ := hex
+              rw [ih _ _ _ _ _ _ _ _ hle hb hno]
+              simp [hn]
     | defeatIf c k =>
       simp only [exec] at hex ⊢
       cases hev : evalB M n env c with
@@ -1144,86 +1232,123 @@ theorem exec_room_mono (M n : Nat) (fns : List FDecl) (w : Nat) : ∀ (fuel : Na
       | some cv =>
         cases cv with
         | true => simpa [hev] using hex
-        | false => simp only [hev] at hex ⊢; exact ih _ _ _ _ _ _ hle hex
+        | false => simp only [hev] at hex ⊢; exact ih _ _ _ _ _ _ _ _ hle hex hno
     | tryUndo body handler k =>
       simp only [exec] at hex ⊢
       cases hb : exec M n fns w f room o env body with
       | none => simp [hb] at hex
       | some rb =>
         obtain ⟨e1, t1, r1⟩ := rb
-        rw [ih _ _ _ _ _ _ hle hb]
-        simp only [hb, Option.bind_eq_bind, Option.bind_some] at hex ⊢
+        simp only [hb, Option.bind_eq_bind, Option.bind_some] at hex
         by_cases hd : r1 = .defeat
         · subst hd
-          simp only [if_true] at hex ⊢
+          rw [ih _ _ _ _ _ _ _ _ hle hb (by decide)]
+          simp only [if_true, Option.bind_eq_bind, Option.bind_some] at hex ⊢
           cases hh : exec M n fns w f room o env handler with
           | none => simp [hh] at hex
           | some rh =>
             obtain ⟨e2, t2, r2⟩ := rh
-            rw [ih _ _ _ _ _ _ hle hh]
-            simp only [hh, Option.bind_some] at hex ⊢
+            simp only [hh, Option.bind_some] at hex
             by_cases hn2 : r2 = .norm
             · subst hn2
-              simp only [if_true] at hex ⊢
+              rw [ih _ _ _ _ _ _ _ _ hle hh (by decide)]
+              simp only [if_true, Option.bind_some] at hex ⊢
               cases hk : exec M n fns w f room o e2 k with
               | none => simp [hk] at hex
-              | some rk => rw [ih _ _ _ _ _ _ hle hk]; rw [hk] at hex; exact hex
-            · simpa [hn2] using hex
-        · simp only [hd, if_false] at hex ⊢
+              | some rk =>
+                obtain ⟨e3, t3, r3⟩ := rk
+                simp only [hk, Option.bind_some, Option.pure_def, Option.some.injEq, Prod.mk.injEq] at hex
+                obtain ⟨rfl, rfl, rfl⟩ := hex
+                rw [ih _ _ _ _ _ _ _ _ hle hk hno]; rfl
+            · simp only [hn2, if_false, Option.pure_def, Option.some.injEq, Prod.mk.injEq] at hex
+              obtain ⟨rfl, rfl, rfl⟩ := hex
+              rw [ih _ _ _ _ _ _ _ _ hle hh hno]
+              simp [hn2]
+        · simp only [hd, if_false] at hex
           by_cases hn : r1 = .norm
           · subst hn
-            simp only [if_true] at hex ⊢
+            rw [ih _ _ _ _ _ _ _ _ hle hb (by decide)]
+            simp only [if_true, Option.bind_eq_bind, Option.bind_some] at hex ⊢
             cases hk : exec M n fns w f room o e1 k with
             | none => simp [hk] at hex
-            | some rk => rw [ih _ _ _ _ _ _ hle hk]; rw [hk] at hex; exact hex
-          · simpa [hn] using hex
+            | some rk =>
+              obtain ⟨e3, t3, r3⟩ := rk
+              simp only [hk, Option.bind_some, Option.pure_def, Option.some.injEq, Prod.mk.injEq] at hex
+              obtain ⟨rfl, rfl, rfl⟩ := hex
+              simp only [reduceCtorEq, if_false]
+              rw [ih _ _ _ _ _ _ _ _ hle hk hno]; rfl
+          · simp only [hn, if_false, Option.pure_def, Option.some.injEq, Prod.mk.injEq] at hex
+            obtain ⟨rfl, rfl, rfl⟩ := hex
+            rw [ih _ _ _ _ _ _ _ _ hle hb hno]
+            simp [hn, hd]
     | callS g args k =>
       simp only [exec] at hex ⊢
       cases hc : callWith M n fns w (exec M n fns w f) room o env g args with
       | none => simp [hc] at hex
       | some rc =>
-        rw [hcw _ _ _ _ _ hc]
         obtain ⟨trc, flag, rv⟩ := rc
         cases flag with
-        | true => simpa [hc] using hex
-        | false =>
+        | some rf =>
+          simp only [hc, Option.some.injEq, Prod.mk.injEq] at hex
+          obtain ⟨rfl, rfl, rfl⟩ := hex
+          rw [hcw _ _ _ _ _ _ _ hc (by simpa using hno)]
+        | none =>
+          rw [hcw _ _ _ _ _ _ _ hc (by simp)]
           simp only [hc] at hex ⊢
           cases hk : exec M n fns w f room o env k with
           | none => simp [hk] at hex
-          | some rk => rw [ih _ _ _ _ _ _ hle hk]; rw [hk] at hex; exact hex
+          | some rk =>
+            obtain ⟨e1, t1, r1⟩ := rk
+            simp only [hk, Option.bind_eq_bind, Option.bind_some, Option.pure_def, Option.some.injEq, Prod.mk.injEq] at hex
+            obtain ⟨rfl, rfl, rfl⟩ := hex
+            rw [ih _ _ _ _ _ _ _ _ hle hk hno]; rfl
     | declCall x g args k =>
       simp only [exec] at hex ⊢
       cases hc : callWith M n fns w (exec M n fns w f) room o env g args with
       | none => simp [hc] at hex
       | some rc =>
-        rw [hcw _ _ _ _ _ hc]
         obtain ⟨trc, flag, rv⟩ := rc
         cases flag with
-        | true => simpa [hc] using hex
-        | false =>
+        | some rf =>
+          simp only [hc, Option.some.injEq, Prod.mk.injEq] at hex
+          obtain ⟨rfl, rfl, rfl⟩ := hex
+          rw [hcw _ _ _ _ _ _ _ hc (by simpa using hno)]
+        | none =>
+          rw [hcw _ _ _ _ _ _ _ hc (by simp)]
           cases rv with
           | none => simp [hc] at hex
           | some v =>
             simp only [hc] at hex ⊢
             cases hk : exec M n fns w f room (o + w) (upd env x v) k with
             | none => simp [hk] at hex
-            | some rk => rw [ih _ _ _ _ _ _ hle hk]; rw [hk] at hex; exact hex
+            | some rk =>
+              obtain ⟨e1, t1, r1⟩ := rk
+              simp only [hk, Option.bind_eq_bind, Option.bind_some, Option.pure_def, Option.some.injEq, Prod.mk.injEq] at hex
+              obtain ⟨rfl, rfl, rfl⟩ := hex
+              rw [ih _ _ _ _ _ _ _ _ hle hk hno]; rfl
     | assignCall x g args k =>
       simp only [exec] at hex ⊢
       cases hc : callWith M n fns w (exec M n fns w f) room o env g args with
       | none => simp [hc] at hex
       | some rc =>
-        rw [hcw _ _ _ _ _ hc]
         obtain ⟨trc, flag, rv⟩ := rc
         cases flag with
-        | true => simpa [hc] using hex
-        | false =>
+        | some rf =>
+          simp only [hc, Option.some.injEq, Prod.mk.injEq] at hex
+          obtain ⟨rfl, rfl, rfl⟩ := hex
+          rw [hcw _ _ _ _ _ _ _ hc (by simpa using hno)]
+        | none =>
+          rw [hcw _ _ _ _ _ _ _ hc (by simp)]
           cases rv with
           | none => simp [hc] at hex
           | some v =>
             simp only [hc] at hex ⊢
             cases hk : exec M n fns w f room o (upd env x v) k with
             | none => simp [hk] at hex
-            | some rk => rw [ih _ _ _ _ _ _ hle hk]; rw [hk] at hex; exact hex
+            | some rk =>
+              obtain ⟨e1, t1, r1⟩ := rk
+              simp only [hk, Option.bind_eq_bind, Option.bind_some, Option.pure_def, Option.some.injEq, Prod.mk.injEq] at hex
+              obtain ⟨rfl, rfl, rfl⟩ := hex
+              rw [ih _ _ _ _ _ _ _ _ hle hk hno]; rfl
 
 end HidVerif.Core
